@@ -133,7 +133,7 @@ func (e *Env) ruleAttrs(el string) []string {
 	return out
 }
 
-var relPool = []string{"tag\u00a0", "author\u3000", "me\x0b", "nofollow", "noopener", "noreferrer", "nofollow noopener", "NOFOLLOW", "xnofollowx", "noopenerx", "author", "a b", "nofollow\tnoreferrer", "nofollow\nx", "nofollow nofollow", " ", "", "external nofollow noopener noreferrer", "NoOpener", "noreferrernofollow"}
+var relPool = []string{"opener", "OPENER", "follow", "referrer", "no opener", "noopener-x", "xnoopener", "nofollo", "tag\u00a0", "author\u3000", "me\x0b", "nofollow", "noopener", "noreferrer", "nofollow noopener", "NOFOLLOW", "xnofollowx", "noopenerx", "author", "a b", "nofollow\tnoreferrer", "nofollow\nx", "nofollow nofollow", " ", "", "external nofollow noopener noreferrer", "NoOpener", "noreferrernofollow"}
 var targetPool = []string{"_blank", "_self", "_BLANK", "_top", "frame1", "", " _blank", "_blank "}
 
 // StyleKnown lists (property, sample values) for the element from the shadow rules.
@@ -281,7 +281,22 @@ func (e *Env) Attrs(r *rand.Rand, el string) [][2]string {
 		default:
 			k = gen.AttrVocab[r.Intn(len(gen.AttrVocab))]
 		}
-		out = append(out, [2]string{k, e.AttrValue(r, el, k)})
+		val := e.AttrValue(r, el, k)
+		switch r.Intn(24) {
+		case 0:
+			// the attribute's own name as its value (the XHTML spelling of a boolean attribute)
+			val = gen.Pick(r, []string{k, strings.ToUpper(k)})
+		case 1:
+			// a look-alike of the name: U+212A / U+0130 / U+017F lower- or upper-case to ASCII letters under
+			// Unicode case mapping, but the tokenizer and browsers only fold A-Z
+			for _, sub := range [][2]string{{"k", "\u212a"}, {"i", "\u0130"}, {"s", "\u017f"}} {
+				if strings.Contains(k, sub[0]) && r.Intn(2) == 0 {
+					k = strings.Replace(k, sub[0], sub[1], 1)
+					break
+				}
+			}
+		}
+		out = append(out, [2]string{k, val})
 		if r.Intn(10) == 0 { // duplicated attribute
 			out = append(out, [2]string{k, e.AttrValue(r, el, k)})
 		}
